@@ -1,10 +1,9 @@
 (** * The decision logic of the trace as translated is the one the model uses.
 
     Re-checked on every run against gen/CycleGen.v (regenerated from
-    /repo/src/cycle.rs). The loop skeleton of [cycle_refs] and the shape of
-    [orphaned_cycle] are matched textually by the translator (they are what
-    [trace_go] and [orphaned_cycle] of Model/Atomic.v transcribe); the two
-    pieces translated to Gallina are proved equal to the model here. *)
+    /repo/src/cycle.rs). The two places that carry the decision logic are proved equal
+    to the model here; the control skeletons of [cycle_refs] and
+    [orphaned_cycle], also translated, in gen/CycleSkelProofs.v. *)
 From Coq Require Import NArith List Bool Lia. Import ListNotations.
 From CR Require Import Base Atomic.
 From Gen Require Import CycleLang CycleGen.
